@@ -57,8 +57,10 @@ fn main() {
         "C13" => props::c13::run(ctx),
         "C15" => props::c15::run(ctx),
         "C16" => props::c16::run(ctx),
+        "C17" => props::c17::run(ctx),
         "C18" => props::c18::run(ctx),
         "C19" => props::c19::run(ctx),
+        "C20" => props::c20::run(ctx),
         _ => {
             eprintln!("unknown property {id}");
             2
@@ -92,8 +94,10 @@ fn replay_file(path: &str) -> i32 {
             "C13" => props::c13::replay(case).map_err(|m| format!("{}: {}", m.key, m.what)),
             "C15" => props::c15::replay(case).map_err(|m| format!("{}: {}", m.key, m.what)),
             "C16" => props::c16::replay(case).map_err(|m| format!("{}: {}", m.key, m.what)),
+            "C17" => props::c17::replay(case),
             "C18" => props::c18::replay(case),
             "C19" => props::c19::replay(case),
+            "C20" => props::c20::replay(case),
             _ => engine_failure("unknown property in replay file"),
         }
     };
